@@ -499,9 +499,11 @@ int
 Tiff::stop() noexcept
 {
     if (state == DeviceState_Running) {
+        // Leave the running state first: terminate_ifd_list() writes, and a
+        // failing write calls stop() again.
+        state = DeviceState_Armed;
         terminate_ifd_list();
         file_close(&file_);
-        state = DeviceState_Armed;
         frame_count_ = 0;
         LOG("TIFF: Writer stop");
     }
